@@ -108,3 +108,52 @@ Example C12_nonvacuous :
   render (set_with_alias true default_ctx) None (TArith Add (TField (L "a") None (Some (L "x"))) (TField (L "b") None None) (Some (L "s"))) =
   Ok (L """a""+""b"" ""s""", None).
 Proof. reflexivity. Qed.
+
+From PT Require Import Proofs.QueryEq.
+
+(* ---- lifted to lists and to the select list of EVERY statement ---- *)
+Fixpoint all_plain (l : terms) : bool := match l with TNil => true | TCons t r => plain_term t && all_plain r end.
+Fixpoint unalias_ts (l : terms) : terms := match l with TNil => TNil | TCons t r => TCons (unalias t) (unalias_ts r) end.
+Fixpoint put_aliases (c : ctx) (ss : list str) (l : terms) : list str :=
+  match ss, l with
+  | s :: ss', TCons t r => alias_sql c s (term_alias t) :: put_aliases c ss' r
+  | _, _ => ss
+  end.
+
+Lemma render_ts_defining : forall l c p, all_plain l = true -> with_alias c = true ->
+  render_ts c p l = match render_ts c p (unalias_ts l) with
+                    | Ok (ss, p') => Ok (put_aliases c ss l, p')
+                    | Exn e => Exn e
+                    end.
+Proof.
+  induction l as [|t r IH]; intros c p Hp Hw; [reflexivity|].
+  cbn [all_plain] in Hp. apply andb_prop in Hp. destruct Hp as [Ht Hr].
+  cbn [render_ts unalias_ts]. rewrite (C12_defining_position t c p Ht Hw).
+  destruct (render c p (unalias t)) as [[s p1]|e]; [|reflexivity].
+  rewrite (IH c p1 Hr Hw).
+  destruct (render_ts c p1 (unalias_ts r)) as [[ss p2]|e]; reflexivity.
+Qed.
+
+(* the select list of EVERY statement of the model: each item is its un-aliased rendering followed by exactly its own alias *)
+Theorem C12_select_list_defines_aliases : forall (q : query) (c : ctx) (p : pz),
+  all_plain (q_selects q) = true ->
+  r_ts the_rens (set_with_alias true (set_subquery true c)) p (q_selects q) =
+    match r_ts the_rens (set_with_alias true (set_subquery true c)) p (unalias_ts (q_selects q)) with
+    | Ok (ss, p') => Ok (put_aliases (set_with_alias true (set_subquery true c)) ss (q_selects q), p')
+    | Exn e => Exn e
+    end.
+Proof. intros q c p H. cbn [r_ts the_rens]. apply render_ts_defining; [exact H | destruct c; reflexivity]. Qed.
+Print Assumptions C12_select_list_defines_aliases.
+
+(* the filter clauses of EVERY statement (WHERE, PREWHERE, HAVING are rendered under the clause context with sub-queries parenthesised):
+   the alias of a flag-respecting operand is invisible there, whatever flags the embedding position handed down *)
+Theorem C12_filter_clauses_ignore_aliases : forall (q : query) (c0 : ctx) (p : pz) (t : term),
+  respects_flag t = true ->
+  let c := set_subquery true (clause_ctx q (adjust_ctx q c0)) in
+  render_o c p (SomeT t) = render_o c p (SomeT (unalias t)).
+Proof.
+  intros q c0 p t Hr c. cbn [render_o].
+  rewrite (C12_operand_alias_invisible t c p Hr); [reflexivity|].
+  unfold c, clause_ctx, adjust_ctx. destruct (q_cls q), c0; reflexivity.
+Qed.
+Print Assumptions C12_filter_clauses_ignore_aliases.
